@@ -165,3 +165,10 @@ package panos
 //vc:  invariant[C18] 1 "for _, v1 := range d1.Vsys" true
 //vc:  invariant[C18] 2 "for _, v2 := range d2.Vsys" true
 //vc:  ensures[C18] @deviceNameClashIsError (c1 != nil && old(c1.Devices) != nil && old(len(c1.Devices.Entries)) > 0 && c2 != nil && old(c2.Devices) != nil && old(len(c2.Devices.Entries)) > 0 && old(c1.Devices.Entries[0].Name) != "" && old(c2.Devices.Entries[0].Name) != "" && old(c1.Devices.Entries[0].Name) != old(c2.Devices.Entries[0].Name)) ==> result != nil
+
+// ---- C03: hasEqualizedLists (closure 1 of equalize) emits its own commands only on success ----
+// The function may give up (return false) after looking at nested groups; the
+// caller then leaves the device list as it is or replaces it as a whole. What
+// this activation itself appends to the script (member deletes, the set of new
+// members) must therefore be appended only when it can no longer fail.
+//vc:emitonsuccess[C03] (*rulesPair).equalize$1 result
